@@ -598,6 +598,8 @@ class Packer:
                 cname = "operator " + s["ret"]
             elif s["name"]:
                 cname = "ov%d_%d" % (s["name"], self.libno)
+            elif s["cls"] == "-":
+                cname = "f%d_%d" % (sig_id(s), fi)       # namespace-scope names are shared by all families
             else:
                 cname = "f%d" % sig_id(s)
             fkey = (k, cname)
